@@ -624,8 +624,8 @@ def IsClose (c : Call) : Prop := ∃ fd, c = .close fd
 def ParseCall (d : Handle) (c : Call) : Prop :=
   (∃ nm, c = .openRd d nm) ∨ (∃ fd, c = .read fd) ∨ IsClose c
 
-theorem ParseCall.quiet {d : Handle} {c : Call} (h : ParseCall d c) : c.mutating = false ∧ c ≠ .fork := by
-  rcases h with ⟨nm, rfl⟩ | ⟨fd, rfl⟩ | ⟨fd, rfl⟩ <;> exact ⟨rfl, fun h => by cases h⟩
+theorem ParseCall.quiet {d : Handle} {c : Call} (h : ParseCall d c) : c.mutating = false ∧ c.isFork = false := by
+  rcases h with ⟨nm, rfl⟩ | ⟨fd, rfl⟩ | ⟨fd, rfl⟩ <;> exact ⟨rfl, rfl⟩
 
 theorem calls_ret {α} {Q : Call → Prop} (a : α) : Calls Q (Prog.ret a) := True.intro
 theorem calls_call {α} {Q : Call → Prop} {c : Call} {k : Res → Prog α} (h : Q c) (hk : ∀ r, Calls Q (k r)) :
